@@ -5,6 +5,10 @@ import json, os, re, shutil, sys, subprocess
 HERE = os.path.dirname(os.path.dirname(os.path.abspath(__file__)))
 props = {json.loads(l)['id']: json.loads(l) for l in open(os.path.join(HERE, 'properties.jsonl'))}
 rows = []
+# seeded changes that no longer have an effect on the repaired tree (kept for the record)
+OBSOLETE = {
+    'C07-r5-m1': 'its symptom (a client left with less than a period to echo) turned out to exist on the unchanged tree as well, for slow authentication (finding F14); the repair 2c4f7c3 (MissedTickBehavior::Delay) removes it at the root, so on the repaired tree this change no longer breaks the property and no longer applies cleanly. patch.diff is against fb23c2b; the detection recorded here was obtained against that tree.',
+}
 head = subprocess.run(['git', '-C', '/repo', 'rev-parse', '--short', 'HEAD'], capture_output=True, text=True).stdout.strip()
 for root in sys.argv[1:]:
     rnd = os.path.basename(os.path.normpath(root)).lstrip('r') or '0'
@@ -57,6 +61,7 @@ for root in sys.argv[1:]:
                 },
                 'checks_run': {'how': 'tools/sweep_mutants.sh: git -C /repo apply patch.diff; ./check <id> quick; git -C /repo checkout -- .', 'results': ran},
                 'caught_by': caught,
+                **({'obsolete_on_repaired_tree': OBSOLETE[sid]} if sid in OBSOLETE else {}),
                 'minimised_replays_on_unchanged_tree': clean,
             }
             json.dump(meta, open(os.path.join(out, 'meta.json'), 'w'), indent=1)
